@@ -296,6 +296,11 @@ func (e diskEngine) Gen(job *Job) *Case {
 	switch {
 	case k < w[0]:
 		c.Project = genValid(r.Fork())
+		if r.Chance(1, 4) {
+			// a project with 2-4 rule violations of the generator's 27 defect kinds (duplicates,
+			// undefined references, broken path parameters, ...): error paths are code too
+			c.Project = genMultiDefect(r.Fork())
+		}
 	case k < w[0]+w[1]:
 		mode := []string{"graph", "graph", "hostile", "hostile", "hostile", "cycle"}[r.Intn(6)]
 		c.Project = genLight(r.Fork(), mode)
@@ -324,6 +329,16 @@ func (e diskEngine) Gen(job *Job) *Case {
 	}
 	if r.Chance(1, 6) && !strings.HasPrefix(c.Project.Kind, "special") && c.Project.Kind != "corpus" {
 		c.Prior = r.Range(1, 2)
+	}
+	if r.Chance(1, 4) && c.Project.Kind != "corpus" {
+		c.RootAs = r.Range(1, 6) // another spelling of the same root path (./, /./, //, /../, absolute, ../<cwd>/)
+	}
+	if r.Chance(1, 10) {
+		kw := []string{"MACRO", "PASTE", "INCLUDE", "TAG", "ENUM", "Description", "Query", "SERVER", "TYPE", "Headers"}
+		c.Banned = []string{kw[r.Intn(len(kw))]}
+		if r.Chance(1, 2) {
+			c.Banned = append(c.Banned, kw[r.Intn(len(kw))])
+		}
 	}
 	// C07(c): an illegal byte over the first byte of a directive keyword of a light project
 	if light && e.prop == "C07" && c.Project.Kind == "light-graph" && r.Chance(1, 3) {
@@ -572,7 +587,7 @@ func (e diskEngine) Exec(c *Case, job *Job) *Result {
 	shapeStr := strings.Join(shape, " ")
 
 	// ---------- oracles ----------
-	rootPath := filepath.Join(projDir, c.Project.Root)
+	rootPath := relCwd(spellRoot(c.Project.Root, c.RootAs))
 	var rootData []byte
 	if f := c.Project.File(c.Project.Root); f != nil {
 		rootData = f.Data
@@ -583,7 +598,7 @@ func (e diskEngine) Exec(c *Case, job *Job) *Result {
 			garbage = true
 		}
 	}
-	modelAsserted := (strings.HasPrefix(c.Project.Kind, "light") || c.Project.Kind == "generated-valid" || c.Project.Kind == "generated-late-defect" || c.Project.Kind == "macro-graph" || strings.HasPrefix(c.Project.Kind, "special")) && !garbage
+	modelAsserted := (strings.HasPrefix(c.Project.Kind, "light") || c.Project.Kind == "generated-valid" || c.Project.Kind == "generated-late-defect" || c.Project.Kind == "multi-defect" || c.Project.Kind == "macro-graph" || strings.HasPrefix(c.Project.Kind, "special")) && !garbage
 	for _, f := range c.Faults {
 		if f.Kind == "flip" || f.Kind == "setbyte" || f.Kind == "lost-zero" || f.Kind == "filler-tail" {
 			if !strings.HasPrefix(c.Project.Kind, "light") {
@@ -601,7 +616,7 @@ func (e diskEngine) Exec(c *Case, job *Job) *Result {
 		v01c, v01s = "work-not-proportional", "work-not-proportional"
 		v01m = fmt.Sprintf("the build executed %d seam operations for %d bytes of input (%d per byte; the unchanged tree stays below 10 per byte): work is not proportional to the input", ops, served, ops/uint64(served+1))
 	}
-	v14c, v14s, v14m := oracleC14(c, o, log, mr, modelAsserted, res)
+	v14c, v14s, v14m := oracleC14(c, o, log, mr, modelAsserted, res, rootPath)
 	v07c, v07s, v07m := oracleC07(c, o, log, mr, modelAsserted && !mr.abstained, rootPath, rootData, res)
 
 	report := func(prop, class, sig, msg string) {
@@ -731,8 +746,8 @@ func oracleC01(o *Outcome, d *Disk) (class, sig, msg string) {
 
 // ---------- C14 ----------
 
-func oracleC14(c *Case, o *Outcome, log []Access, mr *modelResult, asserted bool, res *Result) (class, sig, msg string) {
-	if c, m := safetyCheck(log); c != "" {
+func oracleC14(c *Case, o *Outcome, log []Access, mr *modelResult, asserted bool, res *Result, rootPath string) (class, sig, msg string) {
+	if c, m := safetyCheck(log, rootPath); c != "" {
 		return c, c, m
 	}
 	if !asserted {
@@ -1026,6 +1041,15 @@ func oracleC07(c *Case, o *Outcome, log []Access, mr *modelResult, treeAsserted 
 		}
 		res.count("c07:include-located-error-checked", 1)
 	}
+	// (d) the error moves with the text: the same project with every INCLUDE line replaced by the
+	// bytes that were served for it (one file, built from memory) must report the same error at
+	// the byte that came from the same place. This knows where a defect IS independently of the
+	// builder's bookkeeping of files and offsets.
+	if treeAsserted && mr.violation == "" && !mr.mustFail && !mr.sawCycle && !mr.pathCycle && len(mr.instances) > 1 && c.Expect == nil && c.Prior == 0 {
+		if cl, m := inlinedLocation(c, o, mr, res); cl != "" {
+			return cl, cl, m
+		}
+	}
 	// (b) trace
 	if !treeAsserted || mr.violation != "" {
 		res.count("c07:trace-not-asserted", 1)
@@ -1075,6 +1099,96 @@ func oracleC07(c *Case, o *Outcome, log []Access, mr *modelResult, treeAsserted 
 		}
 	}
 	return "wrong-trace", sig, fmt.Sprintf("the include trace of the error is [%s]; the include chains of the file instance(s) that were served these bytes are %s", strings.Join(got, " <- "), strings.Join(wants, " or "))
+}
+
+type inlineSeg struct {
+	start, n int // in the inlined text
+	inst     *Instance
+	off      int // offset of the segment inside inst.Data
+}
+
+// inlineInstances renders the dynamic include tree as one text and records where every byte
+// came from. children: instances in read order (depth-first pre-order), as the model built them.
+func inlineInstances(root *Instance, all []*Instance) (string, []inlineSeg) {
+	var sb strings.Builder
+	var segs []inlineSeg
+	kids := map[*Instance][]*Instance{}
+	for _, in := range all {
+		if in.Parent != nil {
+			kids[in.Parent] = append(kids[in.Parent], in)
+		}
+	}
+	var emit func(in *Instance)
+	emit = func(in *Instance) {
+		incs := findIncludes(in.Data)
+		ki := 0
+		pos := 0
+		for _, il := range incs {
+			if ki >= len(kids[in]) || il.status != "ok" {
+				continue
+			}
+			// the INCLUDE line: from its line start to (and including) its line break
+			ls := il.off
+			for ls > 0 && in.Data[ls-1] != '\n' && in.Data[ls-1] != '\r' {
+				ls--
+			}
+			le := il.off
+			for le < len(in.Data) && in.Data[le] != '\n' && in.Data[le] != '\r' {
+				le++
+			}
+			brk := ""
+			if le < len(in.Data) {
+				brk = string(in.Data[le])
+				le++
+				if brk == "\r" && le < len(in.Data) && in.Data[le] == '\n' {
+					brk += "\n"
+					le++
+				}
+			} else {
+				brk = "\n"
+			}
+			if ls > pos {
+				segs = append(segs, inlineSeg{sb.Len(), ls - pos, in, pos})
+				sb.Write(in.Data[pos:ls])
+			}
+			child := kids[in][ki]
+			ki++
+			emit(child)
+			if n := len(child.Data); n > 0 && child.Data[n-1] != '\n' && child.Data[n-1] != '\r' {
+				sb.WriteString(brk)
+			}
+			pos = le
+		}
+		if pos < len(in.Data) {
+			segs = append(segs, inlineSeg{sb.Len(), len(in.Data) - pos, in, pos})
+			sb.Write(in.Data[pos:])
+		}
+	}
+	emit(root)
+	return sb.String(), segs
+}
+
+func inlinedLocation(c *Case, o *Outcome, mr *modelResult, res *Result) (class, msg string) {
+	e := o.Err
+	text, segs := inlineInstances(mr.instances[0], mr.instances)
+	o2 := BuildMem(mr.instances[0].Path, []byte(text), c.Banned...)
+	if o2.Err == nil || o2.Err.Msg != e.Msg {
+		res.count("c07:inlined-comparison-inconclusive(other-outcome)", 1)
+		return "", ""
+	}
+	idx := o2.Err.Index
+	for _, sg := range segs {
+		if idx >= sg.start && idx < sg.start+sg.n {
+			wantFile, wantOff := sg.inst.Path, sg.off+(idx-sg.start)
+			if filepath.Clean(e.File) != filepath.Clean(wantFile) || e.Index != wantOff {
+				return "location-differs-from-inlined-document", fmt.Sprintf("the same error (%s) is reported at %s index %d; in the single-file version of the project (every INCLUDE replaced by the bytes served for it) it is reported at the byte that came from %s index %d", trunc(e.Msg, 80), e.File, e.Index, wantFile, wantOff)
+			}
+			res.count("c07:location-equals-inlined-document", 1)
+			return "", ""
+		}
+	}
+	res.count("c07:inlined-comparison-inconclusive(index-on-a-seam)", 1)
+	return "", ""
 }
 
 // staleIncludeLine: is the printed trace the TRUE chain of another, earlier inclusion made
